@@ -196,8 +196,8 @@ Definition create (s : afs) (h : handle) (n : name) (k : kind) (content : bytes)
     if negb (is_dir d) then (s, RStatus ERR) else
     if negb (wf_name n) then (s, RStatus ERR) else
     if bool_decide (is_Some (o_ents d !! n)) then (s, RStatus ERR) else
-    (* a link target too large for one journal transaction is a resource failure like any other:
-       refused without effect (hint HNoSpace, believed only for targets beyond p_wtmax, see Agree) *)
+    (* a link target larger than the largest WRITE is refused (it need not fit one journal transaction) *)
+    if p_wtmax P <? lenN content then (s, RStatus ERR) else
     match hi with
     | HNoSpace => (s, RStatus ERR)                    (* resource failure: no effect (plausibility: Agree.need) *)
     | HNone | HShort _ => (s, RStatus OK)             (* the call must succeed: no error reply can agree *)
